@@ -170,6 +170,11 @@ pub struct WireGen {
     pub inputs: Vec<WInGen>,
     /// bit i set: the PSBT output i carries no derivation (a wallet destination then is unknown)
     pub withhold_path: u8,
+    /// every channel of the case is taken as outbound, without push and with a counter-signed
+    /// initial commitment, every funding output as exact (more transactions that really fund
+    /// channels)
+    #[serde(default)]
+    pub good_chans: bool,
 }
 
 fn val_strat() -> impl Strategy<Value = ValSel> {
@@ -211,10 +216,27 @@ fn wire_strat() -> impl Strategy<Value = WireGen> {
         prop_oneof![2 => Just(UtxoData::NonWitnessOnly), 3 => Just(UtxoData::Both)],
         val_strat(),
     )
-        .prop_map(|(kind, data, val)| WInGen { kind, data, val });
-    let inputs = prop_oneof![3 => proptest::collection::vec(mixed, 1..4), 2 => proptest::collection::vec(funding_grade, 1..4)];
-    (0u8..3, any::<bool>(), inputs, prop_oneof![3 => Just(0u8), 1 => any::<u8>()])
-        .prop_map(|(pver, node_cap, inputs, withhold_path)| WireGen { pver, node_cap, inputs, withhold_path })
+        .prop_map(|(kind, data, val)| WInGen { kind, data, val })
+        .boxed();
+    // ... next to exactly one legacy input of somebody else (described in any of the three ways)
+    let with_legacy = (
+        proptest::collection::vec(funding_grade.clone(), 0..3),
+        prop_oneof![2 => Just(UtxoData::WitnessOnly), 1 => Just(UtxoData::NonWitnessOnly), 1 => Just(UtxoData::Both)],
+        val_strat(),
+        any::<bool>(),
+    )
+        .prop_map(|(mut v, data, val, first)| {
+            let g = WInGen { kind: WInKind::ForeignP2pkh, data, val };
+            if first {
+                v.insert(0, g);
+            } else {
+                v.push(g);
+            }
+            v
+        });
+    let inputs = prop_oneof![6 => proptest::collection::vec(mixed, 1..4), 4 => proptest::collection::vec(funding_grade, 1..4), 2 => with_legacy];
+    (0u8..3, any::<bool>(), inputs, prop_oneof![3 => Just(0u8), 1 => any::<u8>()], prop::bool::weighted(0.4))
+        .prop_map(|(pver, node_cap, inputs, withhold_path, good_chans)| WireGen { pver, node_cap, inputs, withhold_path, good_chans })
 }
 
 fn in_strat() -> impl Strategy<Value = InGen> {
@@ -555,11 +577,12 @@ impl C08 {
         let prev_outs: Vec<TxOut> = ins.iter().map(|f| f.prev_tx.output[f.vout as usize].clone()).collect();
 
         // --- outputs (labels as at API level) -------------------------------------------------
+        let chans: Vec<ChanGen> = case.chans.iter().map(|g| if wg.good_chans { ChanGen { outbound: true, push: false, validated: true, value_sel: g.value_sel } } else { g.clone() }).collect();
         let mut chan_idx: Vec<Option<usize>> = vec![None; 3];
         let chan_values = [1_000_000u64, 250_000, 4_000_000];
         for c in 0..3u8 {
             if case.outputs.iter().any(|o| matches!(o.kind, OutKind::Channel { c: cc, .. } if cc % 3 == c)) {
-                let g = &case.chans[c as usize];
+                let g = &chans[c as usize];
                 let mut spec = ChanSpec::basic(100 + c as u64);
                 spec.outbound = g.outbound;
                 spec.value_sat = chan_values[g.value_sel as usize % 3];
@@ -591,6 +614,7 @@ impl C08 {
             let withheld = wg.withhold_path & (1 << oi) != 0;
             if let OutKind::Channel { c, value_delta, script_ok } = &g.kind {
                 let c = (*c % 3) as usize;
+                let (value_delta, script_ok) = if wg.good_chans { (&0i8, &true) } else { (value_delta, script_ok) };
                 if used_chan[c] || chan_idx[c].is_none() {
                     outs.push(TxOut { value: Amount::ZERO, script_pubkey: foreign(oi as u8) });
                     derivs.push(Deriv::None);
@@ -680,7 +704,7 @@ impl C08 {
                 st.class("wire:channel-setup-refused");
                 return Ok(());
             }
-            let g = &case.chans[*c as usize];
+            let g = &chans[*c as usize];
             if g.validated {
                 let ch = &pw.chans[*ci];
                 let c0 = finish_content(false, ch.setup.channel_value_sat, 1000, ch.setup.push_value_msat / 1000, vec![], vec![]);
@@ -871,13 +895,23 @@ impl Prop for C08 {
          exact value and script, outbound, no push, initial commitment counter-signed), all segwit flags set if any channel is funded, 0 <= \
          inputs - beneficial and its exact rate over the documented weight lower bound <= max, cumulative approved fee within the velocity \
          limit; Err(UnknownDestinations(I)) => I is exactly the outputs labelled unknown. Non-trivial: accepted transactions with >=1 \
-         channel output or >=3 output classes, and UnknownDestinations results; distinct by class multiset."
+         channel output or >=3 output classes, and UnknownDestinations results; distinct by class multiset. Wire group (about 22% of the \
+         cases): the outputs, channels, fee and policy of the case with 1-3 inputs as an hsmd client describes them (wallet p2wpkh / \
+         p2sh-p2wpkh with redeem script / p2tr by key index; to-remote (static-remotekey or anchors) and delayed to-local outputs of a \
+         closed channel by close_info; somebody else's p2wpkh / p2pkh input without utxo entry; each with witness_utxo only, the previous \
+         transaction only, or both), PSBT outputs with bip32 / taproot key origins for wallet and xpub destinations (or withheld), sent as \
+         SignWithdrawal across the wire encoding to a root handler built like vlsd's (protocol 4/5/6, declining approver that records what \
+         it is asked), channels opened by NewChannel/SetupChannel/ValidateCommitmentTx2. A SignWithdrawalReply implies the same reference \
+         predicate (segwit judged by the true previous outputs) and witnesses of all own inputs that verify under the wallet / channel \
+         keys; whenever the approver is consulted it is about exactly the outputs labelled unknown. Non-trivial there: signed transactions \
+         with >=2 outputs, refusals for unknown outputs or for the fee."
             .into()
     }
     fn assumptions(&self) -> Vec<String> {
         vec![
             "the weight lower bound is the documented one: tx weight + per signable input 77 + (33 or the supplied stack bytes)".into(),
             "an explicit approval of unknown destinations (positive approver) is outside the oracle".into(),
+            "wire group: the node describes its inputs truthfully (values and scripts of witness_utxo are the real previous outputs); a p2sh-p2wpkh input counts as segwit".into(),
         ]
     }
     fn cases(&self, tier: Tier) -> u32 {
